@@ -452,8 +452,11 @@ class Reconfigure:
         if self._destroy_repository:
             if self._create_reference:
                 reference_branch.repository.fetch(self.repository)
-            elif self.local_branch is not None and not self._destroy_branch:
-                up = self.local_branch.user_transport.clone("..")
+            else:
+                # Whether or not a branch of our own uses it, the repository is
+                # about to go: keep its revisions in the repository above (and
+                # refuse, before anything is destroyed, if there is none).
+                up = self.controldir.user_transport.clone("..")
                 up_controldir = controldir.ControlDir.open_containing_from_transport(
                     up
                 )[0]
